@@ -48,6 +48,10 @@ def main():
             rc, out = sh(["git", "-C", "/repo", "worktree", "add", "-q", "--detach", wt, "HEAD"])
             if rc == 0:
                 rc, out = sh(["git", "-C", wt, "apply", os.path.join(d, "patch.diff")])
+                if rc != 0 and os.path.exists(os.path.join(d, "patch.rebased.diff")):
+                    # the same change ported by hand onto the current HEAD (a later fix: commit rewrote the lines)
+                    rc, out = sh(["git", "-C", wt, "apply", os.path.join(d, "patch.rebased.diff")])
+                    res["patch"] = "patch.rebased.diff"
         if rc != 0:
             res.update(outcome="stale-patch", detail=out[-500:])
         else:
